@@ -131,6 +131,21 @@ def main_repeat_oracle(rng):
                 vm, exc, out, err = run_real(lambda: main(["--quiet"] + [paths[k]]))
                 res.append((k, {"raise": exc} if exc else snapshot_vm(vm, out, "")))
             outs.append(res)
+        # the same path, with another program written into it in the meantime (seed C15f: file texts were cached per
+        # path for the life of the process)
+        open(paths[0], "w").write(texts[1])
+        vm, exc, out, err = run_real(lambda: main(["--quiet"] + [paths[0]]))
+        outs.append([(1, {"raise": exc} if exc else snapshot_vm(vm, out, ""))])
+        inc = os.path.join(d, "inc.hera")
+        top = os.path.join(d, "top.hera")
+        open(top, "w").write('#include "inc.hera"\nINC(R2, 1)\n')
+        seen = []
+        for val in (100, 200):
+            open(inc, "w").write("SET(R5, %d)\n" % val)
+            vm, exc, out, err = run_real(lambda: main(["--quiet", top]))
+            seen.append(None if exc or vm is None else vm.registers[5])
+        if seen != [100, 200]:
+            return "a program whose included file was edited between two runs in one process ends with R5 = %r, %r (the file said 100, then 200)" % tuple(seen)
     ref = {}
     for res in outs:
         for k, d in res:
